@@ -165,7 +165,7 @@ def _known_callables(findings, ob):
             env.update(getattr(eng, "derived", {}))
             return eval_region(expr, env)
 
-        out.append((f["id"], reg))
+        out.append((f["id"], reg, tuple(f.get("labels") or ())))
     return out
 
 
@@ -372,7 +372,7 @@ def run_check(prop, tier, obligations, encoded_funcs=(), stubs=(), bounds=(), ou
     replay_paths = []
     shown = set()
     for n, (r, v) in enumerate(violations):
-        if (r["name"]) in shown or len(shown) >= 12:
+        if (r["name"]) in shown or len(shown) >= int(os.environ.get("VERIF_MAXSHOW", "12")):
             continue  # one line per obligation, at most 12 (all are counted in the evidence file)
         shown.add(r["name"])
         path = os.path.join(VERIF, "replays", f"{prop}-{n}.json")
